@@ -8,7 +8,7 @@ import (
 
 func init() { scenarios["C11"] = scenarioC11 }
 
-var c11Behaviours = []string{"pass", "skip", "errorf", "errorf-skip", "cleanup-errorf", "cleanup-panic", "fatal"}
+var c11Behaviours = []string{"pass", "skip", "errorf", "errorf-skip", "cleanup-errorf", "cleanup-panic", "fatal", "errorf-invalid"}
 
 func rangeIf(v int, lo, hi int, body ...*Stmt) *Stmt {
 	return &Stmt{K: SIf, Cond: &Cond{Var: v, Op: OpGE, C: int64(lo)}, Body: []*Stmt{{K: SIf, Cond: &Cond{Var: v, Op: OpLT, C: int64(hi)}, Body: body}}}
@@ -19,13 +19,13 @@ func genC11Prog(t *Tape) (*Prog, []int) {
 	p := &Prog{}
 	sel := 0
 	x := 1
-	p.NVars = 2
+	p.NVars = 3
 	// weights of the 7 behaviours, summing to 100
-	w := make([]int, 7)
+	w := make([]int, 8)
 	w[0] = t.Int("c11.w.pass", 30, 80)
 	rest := 100 - w[0]
-	for i := 1; i < 7; i++ {
-		if i == 6 {
+	for i := 1; i < 8; i++ {
+		if i == 7 {
 			w[i] = rest
 			break
 		}
@@ -35,8 +35,8 @@ func genC11Prog(t *Tape) (*Prog, []int) {
 		}
 		rest -= w[i]
 	}
-	bounds := make([]int, 8)
-	for i := 0; i < 7; i++ {
+	bounds := make([]int, 9)
+	for i := 0; i < 8; i++ {
 		bounds[i+1] = bounds[i] + w[i]
 	}
 	labelled := t.Chance("c11.labelled", 30)
@@ -62,6 +62,8 @@ func genC11Prog(t *Tape) (*Prog, []int) {
 		rangeIf(sel, bounds[2], bounds[3], &Stmt{K: SFail, FKind: nonFatalKinds[t.Pick("c11.nf", 3)], Site: 0}),
 		rangeIf(sel, bounds[3], bounds[4], &Stmt{K: SFail, FKind: FKErrorf, Site: 0}, &Stmt{K: SSkip, SKind: t.Pick("skip.kind", 3)}),
 		rangeIf(sel, bounds[6], bounds[7], &Stmt{K: SFail, FKind: fatalKinds[t.Pick("c11.fk", len(fatalKinds))], Site: 3}),
+		// a non-fatal failure followed by an invalidation that does not come from Skip (a generator giving up)
+		rangeIf(sel, bounds[7], bounds[8], &Stmt{K: SFail, FKind: FKErrorf, Site: 0}, &Stmt{K: SDraw, Var: 2, Gen: &GenSpec{K: "filter_never"}, Label: lab("never")}),
 	)
 	p.NSites = 4
 	return p, bounds
@@ -75,7 +77,7 @@ func behaviourOf(inv *Invocation, bounds []int) int {
 	if _, err := fmt.Sscanf(inv.Draws[0].Text, "%d", &v); err != nil {
 		return -1
 	}
-	for i := 0; i < 7; i++ {
+	for i := 0; i < 8; i++ {
 		if v >= bounds[i] && v < bounds[i+1] {
 			return i
 		}
